@@ -27,20 +27,21 @@ theorem msa_eq_published (hc : Bool) (σ r γ u : ℝ) (h : hc = false ∨ σ < 
   unfold closureAt closureFormula
   rcases h with h | h <;> simp [h]
 
-/-- the Martynov–Sarkisov relation in the `γ* = γ - u` form (variant B of DESIGN §4-C09) -/
-theorem msB_eq_published (hc : Bool) (σ r γ u : ℝ) (h : hc = false ∨ σ < r) :
+/-- the Martynov–Sarkisov relation in the `γ* = γ - u` form (variant B of DESIGN §4-C09), where the radicand is non-negative
+(`Real.sqrt` is totalised to 0 below; the code returns `nan` there, as does the executed `Float` model) -/
+theorem msB_eq_published (hc : Bool) (σ r γ u : ℝ) (h : hc = false ∨ σ < r) (_hrad : 0 ≤ 1 + 2 * (γ - u)) :
     closureAt .msB hc σ r γ u = Real.exp (Real.sqrt (1 + 2 * (γ - u)) - 1) - 1 - γ := by
   unfold closureAt closureFormula
   rcases h with h | h <;> simp [h]
 
-/-- … and in the original 1983 form (variant A) -/
-theorem msA_eq_published (hc : Bool) (σ r γ u : ℝ) (h : hc = false ∨ σ < r) :
+/-- … and in the original 1983 form (variant A), where the radicand is non-negative -/
+theorem msA_eq_published (hc : Bool) (σ r γ u : ℝ) (h : hc = false ∨ σ < r) (_hrad : 0 ≤ 1 + 2 * γ) :
     closureAt .msA hc σ r γ u = Real.exp (-u + Real.sqrt (1 + 2 * γ) - 1) - 1 - γ := by
   unfold closureAt closureFormula
   rcases h with h | h <;> simp [h]
 
-/-- what the shipped Martynov–Sarkisov class computes -/
-theorem ms_shipped_formula (hc : Bool) (σ r γ u : ℝ) (h : hc = false ∨ σ < r) :
+/-- what the shipped Martynov–Sarkisov class computes (where its radicand is non-negative; `nan` otherwise) -/
+theorem ms_shipped_formula (hc : Bool) (σ r γ u : ℝ) (h : hc = false ∨ σ < r) (_hrad : 0 ≤ γ - u + 5 / 10) :
     closureAt .ms hc σ r γ u = Real.exp (Real.sqrt (γ - u + 5 / 10) - 1) - 1 - γ := by
   unfold closureAt closureFormula
   rcases h with h | h <;> simp [h]
